@@ -54,7 +54,7 @@ class Sphere(Shape3D):
     @centroid.setter
     def centroid(self, value):
         """:math:`(3, )` :class:`numpy.ndarray` of float: Get or set the centroid of the shape."""  # noqa: E501
-        self._centroid = np.asarray(value)
+        self._centroid = np.array(value)
 
     @property
     def radius(self):
